@@ -219,12 +219,13 @@ def drive(c, tag, real, syms, pairs_fn, assume, twin, rng, conc_inputs=None):
             nm, key, l, r = p[i]
             l, r = np.asarray(jx.to_numeric(jx.lift(l))), np.asarray(jx.to_numeric(jx.lift(r)))
             err = float(np.max(np.abs(l - r))) if l.size else 0.0
-            scale = 1.0 + max(float(np.max(np.abs(l))) if l.size else 0.0, float(np.max(np.abs(r))) if r.size else 0.0)
-            return err > 1e-9 * scale, dict(obligation=nm, err=err, scale=scale, code=l, oracle=r, inputs=ci)
+            # relative threshold: weights are physical volumes / areas (~1e-22 / ~1e-15), so records are tiny in absolute terms
+            scale = max(float(np.max(np.abs(l))) if l.size else 0.0, float(np.max(np.abs(r))) if r.size else 0.0)
+            return err > 1e-9 * scale and err > 0.0, dict(obligation=nm, err=err, scale=scale, code=l, oracle=r, inputs=ci)
         return replay
 
     for i, (nm, key, l, r) in enumerate(pairs):
-        c.prove_eq(f"{tag}: {nm}", l, r, assume, mk_replay(i), key=key)
+        prove_entries(c, f"{tag}: {nm}", l, r, assume, mk_replay(i), key)
     # vacuity twin: a designated output can be non-zero under the assumptions
     tw = twin(out, list(syms))
     tw = [v for v in jx.lift(tw).reshape(-1) if sc.is_symbolic_scalar(v)]
@@ -233,6 +234,22 @@ def drive(c, tag, real, syms, pairs_fn, assume, twin, rng, conc_inputs=None):
     v = tw[0]
     c.witness(f"{tag}: twin (record can be non-zero)", sc.ne(sc.real(v), 0) if isinstance(v, sc.Cx) else sc.ne(v, 0), assume)
     return out
+
+
+def prove_entries(c, name, l, r, assume, replay, key, tol=None):
+    """entrywise c.prove_eq, one query per entry; stops at the first replay-confirmed violation of this pair (one witness
+    per obligation class is enough, the remaining entries are then left unproved and the case is red anyway)."""
+    a, b = jx.lift(l), jx.lift(r)
+    if a.shape != b.shape:
+        a, b = np.broadcast_arrays(a, b)
+    af, bf = a.reshape(-1), b.reshape(-1)
+    for i in range(af.size):
+        nv = len(c.violations)
+        c.prove_eq(f"{name}[{i}]", af[i:i + 1], bf[i:i + 1], assume, replay, key=key, tol=tol)
+        if len(c.violations) > nv:
+            c.notes.append(f"{name}: stopped after the first confirmed violation ({af.size - i - 1} entries not examined)")
+            return False
+    return True
 
 
 def _rand(rng, s):
